@@ -47,30 +47,7 @@ def load_assumed_sources():
     return {}
 
 
-_CLASS_INDEX = {}
-
-
-def class_index(repo):
-    """class name -> (relative module path, ClassDef) for src/sedpack"""
-    import ast
-    if repo in _CLASS_INDEX:
-        return _CLASS_INDEX[repo]
-    idx = {}
-    base = os.path.join(repo, "src")
-    for dp, _, fns in os.walk(os.path.join(base, "sedpack")):
-        for fn in fns:
-            if not fn.endswith(".py"):
-                continue
-            path = os.path.join(dp, fn)
-            try:
-                tree = ast.parse(open(path, encoding="utf-8").read())
-            except Exception:  # noqa: BLE001
-                continue
-            for n in tree.body:
-                if isinstance(n, ast.ClassDef):
-                    idx.setdefault(n.name, (os.path.relpath(path, base), n))
-    _CLASS_INDEX[repo] = idx
-    return idx
+from .source import class_index  # noqa: E402  (class name -> (module, ClassDef))
 
 
 def class_shape_hash(node):
